@@ -169,7 +169,30 @@ def r4_call_forms(ctx, rep):
     rep.ob("both regexes expose the call_chain group", ok, "", py.nloc(snode), nontrivial=False)
 
 
+def r5_external_and_semicolons(ctx, rep):
+    py = ctx.py
+    # variables carrying EXTERNAL (declared function names) are removed from the variable table only
+    # after stand-alone attribute statements were applied
+    cl = py.func("FortranCodeUnit._cleanup")
+    pa_line = min([c.lineno for c in py.walk_calls(cl) if call_name(c) == "self.process_attribs"] or [0])
+    reads = [n for n in ast.walk(cl) if isinstance(n, ast.Attribute) and n.attr == "attribs" and isinstance(n.ctx, ast.Load)]
+    if not pa_line or not reads:
+        raise AnalysisError("FortranCodeUnit._cleanup: process_attribs call or attribs read not found")
+    early = [r for r in reads if r.lineno < pa_line]
+    rep.ob("_cleanup reads attributes only after process_attribs", not early,
+           "the EXTERNAL filter runs after stand-alone attribute statements were attached" if not early else
+           "`.attribs` is read before self.process_attribs(): `real :: area` + `external area` leaves `area` a variable, "
+           "and references `area(x)` are then discarded as array elements", py.nloc(early[0] if early else cl))
+    t = ast.unparse(cl)
+    ok = "'external' not in" in t and "self.variables = [" in t
+    rep.ob("EXTERNAL names are dropped from the variable table", ok, "", py.nloc(cl))
+    # `;`-separated statements: the splitter is exact (shared with C02.R3)
+    from . import c02
+    c02.r3_scanners(ctx, rep)
+
+
 RULES = [
+    RuleSpec("C08.R5", r5_external_and_semicolons, "EXTERNAL handling order; exact `;` splitting (shared with C02.R3)", floor=5),
     RuleSpec("C08.R1", r1_not_scanned, "statements that must not be scanned", floor=25),
     RuleSpec("C08.R2", r2_filter_dominance, "filter dominance and de-duplication", floor=7),
     RuleSpec("C08.R3", r3_keyword_table, "keyword table", floor=35),
